@@ -139,7 +139,8 @@ Definition table_ok (c : cfg) : bool :=
   && forallb (fun s => negb (meth_eqb (s_meth s) MPrepare)) (apply_sites c)
   && (c_load_atomic_pool c || c_pool_rechecks c)
   && (c_load_atomic_engine c || c_apply_checks_stopped c)
-  && c_pool_stop_before_unload c && c_sched_checks_loaded c && c_stream_checks_flag c.
+  && c_pool_stop_before_unload c && c_sched_checks_loaded c && c_stream_checks_flag c
+  && pool_blocks_ok c.
 
 Section Proofs.
 Variable c : cfg.
@@ -155,14 +156,24 @@ Lemma tab_parts :
   /\ (c_load_atomic_pool c || c_pool_rechecks c) = true
   /\ (c_load_atomic_engine c || c_apply_checks_stopped c) = true.
 Proof.
-  pose proof Htab as H. unfold table_ok in H. do 3 (apply andb_prop in H; destruct H as [H _]).
+  pose proof Htab as H. unfold table_ok in H. do 4 (apply andb_prop in H; destruct H as [H _]).
   repeat (apply andb_prop in H; destruct H as [H ?]). tauto.
 Qed.
 
 Lemma tab_stop : c_pool_stop_before_unload c = true /\ c_sched_checks_loaded c = true /\ c_stream_checks_flag c = true.
 Proof.
-  pose proof Htab as H. unfold table_ok in H. do 2 (apply andb_prop in H; destruct H as [H ?]).
+  pose proof Htab as H. unfold table_ok in H. apply andb_prop in H. destruct H as [H _].
+  do 2 (apply andb_prop in H; destruct H as [H ?]).
   apply andb_prop in H. tauto.
+Qed.
+
+Lemma tab_blocks a b : admit_conflict c a b = job_conflict a b.
+Proof.
+  pose proof Htab as H. unfold table_ok in H. apply andb_prop in H. destruct H as [_ H].
+  unfold pool_blocks_ok in H. rewrite forallb_forall in H.
+  assert (Ha : In a all_jobkinds) by (destruct a; simpl; auto).
+  assert (Hb : In b all_jobkinds) by (destruct b; simpl; auto).
+  specialize (H a Ha). rewrite forallb_forall in H. specialize (H b Hb). apply Bool.eqb_prop in H. exact H.
 Qed.
 
 Lemma getT_set_thr st l j : getT (set_thr st l) j = nth j l idle_thread.
@@ -631,9 +642,9 @@ Lemma job_conflict_sym a b : job_conflict a b = job_conflict b a.
 Proof. destruct a, b; reflexivity. Qed.
 
 Lemma pool_admits_spec j l k b :
-  pool_admits j l = true -> t_busy (nth k l idle_thread) = Some b -> job_conflict j b = false.
+  pool_admits c j l = true -> t_busy (nth k l idle_thread) = Some b -> job_conflict j b = false.
 Proof.
-  unfold pool_admits. intros H Hb. rewrite forallb_forall in H.
+  unfold pool_admits. intros H Hb. rewrite <- tab_blocks. rewrite forallb_forall in H.
   destruct (Nat.lt_ge_cases k (List.length l)) as [Hl|Hl].
   - specialize (H (nth k l idle_thread) (nth_In l idle_thread Hl)). rewrite Hb in H.
     apply negb_true_iff in H. exact H.
@@ -1406,7 +1417,7 @@ Definition table_before_fix :=
 Definition cfg_before_fix (k : kind) (nsnap : nat) : cfg :=
   mkCfg (sites_of_table table_before_fix) k nsnap engine_load_inside_foreach pool_load_inside_foreach
         apply_checks_stopped pool_rechecks_before_schedule pool_stops_workers_before_unload
-        sched_checks_node_loaded can_stream_checks_streaming.
+        sched_checks_node_loaded can_stream_checks_streaming pool_blocks.
 
 (* NodeHost stops the shard, the close worker is inside the user Close, a client
    holding a completed ReadIndex reads locally: Lookup runs beside (and after the
@@ -1432,7 +1443,7 @@ Proof. vm_compute. reflexivity. Qed.
 Definition cfg_unload_first (k : kind) (nsnap : nat) : cfg :=
   mkCfg gen_sites k nsnap engine_load_inside_foreach pool_load_inside_foreach
         apply_checks_stopped pool_rechecks_before_schedule false
-        sched_checks_node_loaded can_stream_checks_streaming.
+        sched_checks_node_loaded can_stream_checks_streaming pool_blocks.
 
 (* a save job is inside SaveSnapshot (resp. a recover job inside RecoverFromSnapshot),
    NodeHost.Close stops the node and the pool drops the busy reference without
@@ -1455,7 +1466,7 @@ Proof. vm_compute. repeat split; reflexivity. Qed.
 Definition cfg_flip (k : kind) (nsnap : nat) (sched_check stream_flag : bool) : cfg :=
   mkCfg gen_sites k nsnap engine_load_inside_foreach pool_load_inside_foreach
         apply_checks_stopped pool_rechecks_before_schedule pool_stops_workers_before_unload
-        sched_check stream_flag.
+        sched_check stream_flag pool_blocks.
 
 (* a save request waits in the pool, the replica is stopped and closed, then a worker
    becomes free: without the test of scheduleWorker the job runs on the closed state machine *)
@@ -1478,5 +1489,26 @@ Theorem pool_rules_needed_proved :
   /\ (let st := run (cfg_flip Disk 2 true false) (init 5) two_streams_schedule in
       calls st = [(2%nat, MPrepare); (3%nat, MPrepare)] /\ overlap core core st = true)
   /\ calls (run (gen_cfg Disk 2) (init 5) two_streams_schedule) = [(2%nat, MPrepare)].
+Proof. vm_compute. repeat split; reflexivity. Qed.
+
+(* ---------- the pool's admission rule ---------- *)
+(* the generated configuration with a save job that is only kept waiting by an ongoing
+   save / recover (not by an ongoing stream) *)
+Definition cfg_save_beside_stream (k : kind) (nsnap : nat) : cfg :=
+  mkCfg gen_sites k nsnap engine_load_inside_foreach pool_load_inside_foreach
+        apply_checks_stopped pool_rechecks_before_schedule pool_stops_workers_before_unload
+        sched_checks_node_loaded can_stream_checks_streaming
+        [("Recover", ["saving"; "recovering"; "streaming"]); ("Save", ["saving"; "recovering"]);
+         ("Stream", ["saving"; "recovering"])]%string.
+
+Definition stream_then_save_schedule : list action :=
+  [AApLoad; AApIncr; AApCheck; APoolLoad; APoolIncr; APoolCheck;
+   ADispatch JStream; ASchedule 2 JStream; AThr 2; AThr 2; AThr 2; AThr 2;
+   ADispatch JSave; ASchedule 3 JSave; AThr 3; AThr 3; AThr 3; AThr 3].
+
+Theorem pool_admission_needed_proved :
+  (let st := run (cfg_save_beside_stream Disk 2) (init 5) stream_then_save_schedule in
+   calls st = [(2%nat, MPrepare); (3%nat, MPrepare)] /\ overlap core core st = true)
+  /\ calls (run (gen_cfg Disk 2) (init 5) stream_then_save_schedule) = [(2%nat, MPrepare)].
 Proof. vm_compute. repeat split; reflexivity. Qed.
 
